@@ -1,5 +1,6 @@
 import T4V.Proofs.Macro
 import T4V.Proofs.RealOK
+import T4V.Proofs.Transform
 /-!
 # Property C03 — macrobodies: interior, exterior and numbered facets
 
@@ -7,13 +8,13 @@ Model: `T4V.Model.Macro` (`MacroBodies.py`: body ↦ facets `(mnemonic, paramete
 like an ordinary card, `SurfaceCollection.join`).  Spec: `bodyFacets` (`T4V.Spec.MCNP`): MCNP's facets in
 MCNP's numbering as outward implicit functions.  `BodyOK coll gs`: the k-th emitted signed surface is the
 k-th facet (same zero set, outward side positive).  Proved for RPP, SPH, BOX (either handedness), RCC,
-RHP/HEX with 15 entries and WED, any orientation; REC, ELL, TRC, ARB and the 9-entry RHP are checked by
-the spec monitor and the `macromodel` correspondence only.
+RHP/HEX with 15 entries, WED and REC with 12 entries, any orientation; REC with 10 entries, ELL, TRC, ARB and
+the 9-entry RHP are checked by the spec monitor and the `macromodel` correspondence only.
 -/
 set_option linter.unusedSectionVars false
 set_option linter.unusedSimpArgs false
 namespace T4V.C03
-open T4V T4V.Surf T4V.Macro
+open T4V T4V.Surf T4V.Macro T4V.Tr
 variable {α : Type} [Field α] [LinearOrder α] [IsStrictOrderedRing α] [Transc α]
 
 /-- **negative reference to a body** = inside every facet; **positive reference** = outside some facet -/
@@ -152,6 +153,80 @@ theorem wed_ok (ok : TranscOK α) (toNat : α → Nat) (vx vy vz ax ay az bx by'
     simp only [planeOut, V3.dot, V3.sub, V3.neg, V3.add] at hab ⊢; linear_combination -hab⟩
   refine ⟨_, _, ?_, rfl, .cons f1 (.cons f2 (.cons f3 (.cons f4 (.cons f5 .nil))))⟩
   simp [convertMacro, macroParts, ← hv, ← ha', ← hb', ← hh', h1, h2, h3, h4, h5]
+
+/-! ### REC: elliptical cylinder through `transformation_quad` -/
+
+theorem renorm_some (ok : TranscOK α) (v : V3 α) (h : 0 < v.dot v) :
+    renorm? v = some (V3.smul (1 / Transc.sqrt (v.dot v)) v) := by
+  have := (ok.sqrt_pos _ h).ne'
+  simp [renorm?, this]
+
+theorem inv_some (x : α) (h : x ≠ 0) : inv? x = some (1 / x) := by simp [inv?, h]
+
+/-- a GQ part: the emitted QUAD evaluates the ten coefficients -/
+theorem gq_part (a b c d e f g h j k : α) :
+    ∃ t, convertCard (0:α) 0 "gq" [a, b, c, d, e, f, g, h, j, k] = some [(t, 1)] ∧
+      ∀ p, t.f p = evalQuadric [a, b, c, d, e, f, g, h, j, k] p := by
+  refine ⟨{ kind := .quad, ps := [a, b, c, d, e, f, g, h, j, k] }, rfl, fun p => ?_⟩
+  simp [TSurf.f, TSurf.fLocal, evalQuadric, sq]
+
+/-- **REC with twelve entries** (base, height, the two semi-axis vectors): elliptical cylinder + end planes,
+in any orientation -/
+theorem rec12_ok (ok : TranscOK α) (toNat : α → Nat) (vx vy vz hx hy hz ax ay az bx by' bz : α)
+    (ha : 0 < (⟨ax, ay, az⟩ : V3 α).dot ⟨ax, ay, az⟩) (hb : 0 < (⟨bx, by', bz⟩ : V3 α).dot ⟨bx, by', bz⟩)
+    (hh : 0 < (⟨hx, hy, hz⟩ : V3 α).dot ⟨hx, hy, hz⟩) :
+    ∃ coll gs, convertMacro (0:α) 0 "rec" [vx, vy, vz, hx, hy, hz, ax, ay, az, bx, by', bz] = some coll ∧
+      bodyFacets "rec" [vx, vy, vz, hx, hy, hz, ax, ay, az, bx, by', bz] toNat = some gs ∧ BodyOK coll gs := by
+  generalize hv : (⟨vx, vy, vz⟩ : V3 α) = v
+  generalize hhh : (⟨hx, hy, hz⟩ : V3 α) = h at hh
+  generalize haa : (⟨ax, ay, az⟩ : V3 α) = a at ha
+  generalize hbb : (⟨bx, by', bz⟩ : V3 α) = b at hb
+  obtain ⟨t1, t2, h1, h2, f1, f2⟩ := end_planes ok h v hh
+  have hsa := ok.sqrt_pos _ ha; have hsa2 := ok.sqrt_sq _ ha.le
+  have hsb := ok.sqrt_pos _ hb; have hsb2 := ok.sqrt_sq _ hb.le
+  -- the quadric in its own frame, moved to the lab frame
+  obtain ⟨q', hq, -⟩ := quad_transport (1 / a.dot a) (1 / b.dot b) 0 0 0 0 0 0 0 (-1)
+    ⟨v, ⟨V3.smul (1 / Transc.sqrt (a.dot a)) a, V3.smul (1 / Transc.sqrt (b.dot b)) b,
+      V3.smul (1 / Transc.sqrt (h.dot h)) h⟩⟩ ⟨0, 0, 0⟩
+  have hconv : convertMacro (0:α) 0 "rec" [vx, vy, vz, hx, hy, hz, ax, ay, az, bx, by', bz] =
+      ((convertCard (0:α) 0 "gq" q').map fun c => c.map fun (t, s) => (t, s * 1)).bind fun c1 =>
+        some (c1 ++ [(t1, 1)] ++ [(t2, -1)]) := by
+    have hq2 := hq
+    simp only [one_div] at hq2
+    simp [convertMacro, macroParts, hv, hhh, haa, hbb, inv_some _ ha.ne', inv_some _ hb.ne',
+      renorm_some ok _ ha, renorm_some ok _ hb, renorm_some ok _ hh, quadInFrame, hq2, h1, h2]
+    cases convertCard (0:α) 0 "gq" q' <;> simp
+  -- make the ten coefficients explicit
+  have hqt := fun p => quad_transport (1 / a.dot a) (1 / b.dot b) 0 0 0 0 0 0 0 (-1)
+    ⟨v, ⟨V3.smul (1 / Transc.sqrt (a.dot a)) a, V3.smul (1 / Transc.sqrt (b.dot b)) b,
+      V3.smul (1 / Transc.sqrt (h.dot h)) h⟩⟩ p
+  simp only [transformQuad] at hq hqt
+  cases hq
+  obtain ⟨t, ht, hf⟩ := gq_part (α := α) _ _ _ _ _ _ _ _ _ _
+  rw [ht] at hconv
+  refine ⟨[(t, 1), (t1, 1), (t2, -1)],
+    [fun p => let d := p.sub v; sq (d.dot a) / sq a.norm2 + sq (d.dot b) / sq b.norm2 - 1, planeOut h (v.add h),
+     planeOut h.neg v], by rw [hconv]; simp, ?_, ?_⟩
+  · rw [← hv, ← hhh, ← haa, ← hbb]; rfl
+  · refine .cons (Or.inl ⟨rfl, 1, one_pos, fun p => ?_⟩) (.cons f1 (.cons f2 .nil))
+    obtain ⟨q'', hq'', he⟩ := hqt p
+    cases hq''
+    rw [hf p, he, one_mul]
+    have hsh := ok.sqrt_pos _ hh
+    simp only [V3.norm2] at *
+    generalize a.dot a = na at *
+    generalize b.dot b = nb at *
+    generalize h.dot h = nh at *
+    generalize Transc.sqrt na = sa at *
+    generalize Transc.sqrt nb = sb at *
+    generalize Transc.sqrt nh = sh at *
+    simp only [evalQuadric, Motion.toAux, M3.mulVec, V3.dot, V3.smul, V3.sub, sq]
+    have hsa0 := hsa.ne'; have hsb0 := hsb.ne'; have hsh0 := hsh.ne'
+    have ha0 := ha.ne'; have hb0 := hb.ne'
+    congr 1
+    subst hsa2 hsb2
+    field_simp
+    ring
 
 /-- non-vacuity over ℝ: a left-handed box -/
 example : ∃ coll gs, convertMacro (0:ℝ) 0 "box" [0, 0, 0, 1, 0, 0, 0, 0, 2, 0, 3, 0] = some coll ∧
